@@ -7,6 +7,7 @@ pub mod c05;
 pub mod c06;
 pub mod c07;
 pub mod c08;
+pub mod paging;
 
 pub fn run(a: &Args, rep: &mut Report) -> bool {
     match a.prop.to_lowercase().as_str() {
@@ -16,6 +17,10 @@ pub fn run(a: &Args, rep: &mut Report) -> bool {
         "c06" => c06::run(a, rep),
         "c07" => c07::run(a, rep),
         "c08" => c08::run(a, rep),
+        "c01" => paging::run(a, rep, "c01"),
+        "c02" => paging::run(a, rep, "c02"),
+        "c09" => paging::run(a, rep, "c09"),
+        "c10" => paging::run(a, rep, "c10"),
         _ => return false,
     }
     true
